@@ -405,12 +405,8 @@ Proof.
     apply Z.pow_lt_mono_r_iff in H; lia.
 Qed.
 
-Lemma scaled_inv_le c a b : 0 < a -> 0 < b -> c * a <= b -> (IZR c * / IZR b <= / IZR a)%R.
-Proof.
-  intros Ha Hb H. apply IZR_lt in Ha, Hb. apply IZR_le in H. rewrite mult_IZR in H.
-  apply (Rmult_le_reg_r (IZR b)); [exact Hb|]. rewrite Rmult_assoc, Rinv_l by lra.
-  apply (Rmult_le_reg_l (IZR a)); [exact Ha|]. replace (IZR a * (/ IZR a * IZR b))%R with (IZR b) by (field; lra). lra.
-Qed.
+Lemma inv_pow2_add a b : 0 <= a -> 0 <= b -> (/ IZR (2 ^ (a + b)) = / IZR (2 ^ a) * / IZR (2 ^ b))%R.
+Proof. intros Ha Hb. rewrite Z.pow_add_r, mult_IZR, Rinv_mult by assumption. reflexivity. Qed.
 
 Lemma small_frac t : (0 <= t <= / 2)%R -> (t / (1 - t) <= 2 * t)%R.
 Proof.
@@ -462,17 +458,15 @@ Proof.
   assert (Bu' : (u' <= / IZR (2 ^ 80))%R) by (unfold u'; lra).
   assert (K100 : (/ IZR (2 ^ 100) <= / IZR (2 ^ 90))%R) by (apply Rinv_le_contravar; [apply IZR_lt; reflexivity | apply IZR_le; vm_compute; discriminate]).
   assert (K130 : (/ IZR (2 ^ 130) <= / IZR (2 ^ 100))%R) by (apply Rinv_le_contravar; [apply IZR_lt; reflexivity | apply IZR_le; vm_compute; discriminate]).
-  assert (K80 : (1024 * 1024 * / IZR (2 ^ 80) <= / IZR (2 ^ 65) * / 32)%R).
-  { pose proof (scaled_inv_le (2 ^ 20) (2 ^ 70) (2 ^ 80) eq_refl eq_refl ltac:(vm_compute; discriminate)) as H.
-    change (2 ^ 70) with (2 ^ 65 * 32) in H. rewrite (mult_IZR (2 ^ 65) 32), Rinv_mult in H.
-    change (IZR (2 ^ 20)) with 1048576%R in H. lra. }
-  assert (K90 : (1024 * 1024 * / IZR (2 ^ 90) <= / IZR (2 ^ 80))%R).
-  { pose proof (scaled_inv_le (2 ^ 20) (2 ^ 80) (2 ^ 90) eq_refl eq_refl ltac:(vm_compute; discriminate)) as H.
-    change (IZR (2 ^ 20)) with 1048576%R in H. lra. }
+  assert (E80 : (/ IZR (2 ^ 80) = / IZR (2 ^ 65) * / 32768)%R).
+  { replace 80 with (65 + 15) by reflexivity. rewrite (inv_pow2_add 65 15) by lia. reflexivity. }
+  assert (E90 : (/ IZR (2 ^ 90) = / IZR (2 ^ 80) * / 1024)%R).
+  { replace 90 with (80 + 10) by reflexivity. rewrite (inv_pow2_add 80 10) by lia. reflexivity. }
+  assert (Pd : (0 < / IZR (2 ^ 65))%R) by (apply Rinv_0_lt_compat, IZR_lt; reflexivity).
   assert (P90 : (0 < / IZR (2 ^ 90))%R) by (apply Rinv_0_lt_compat, IZR_lt; reflexivity).
   assert (P80 : (0 < / IZR (2 ^ 80))%R) by (apply Rinv_0_lt_compat, IZR_lt; reflexivity).
-  assert (S90 : (/ IZR (2 ^ 90) <= / 1024)%R) by (apply Rinv_le_contravar; [lra | apply IZR_le; vm_compute; discriminate]).
-  set (e90 := (/ IZR (2 ^ 90))%R) in *. set (e80 := (/ IZR (2 ^ 80))%R) in *.
+  assert (S90 : (/ IZR (2 ^ 90) <= / 1048576)%R) by (apply Rinv_le_contravar; [lra | apply IZR_le; vm_compute; discriminate]).
+  set (e90 := (/ IZR (2 ^ 90))%R) in *. set (e80 := (/ IZR (2 ^ 80))%R) in *. set (dd := (/ IZR (2 ^ 65))%R) in *.
   (* the error of ln_base *)
   set (tL := (816 * uL + 2 * uL)%R) in *.
   assert (HtL : (0 <= tL <= 1024 * e90)%R) by (unfold tL; lra).
@@ -496,29 +490,30 @@ Proof.
     - eapply Rle_trans; [apply small_frac; lra | lra]. }
   set (dp := (255 * u' / (1 - 255 * u'))%R) in *.
   assert (Hdp : (0 <= dp <= 512 * e80)%R).
-  { unfold dp. assert (255 * u' <= / 2)%R by (unfold u', e80 in *; lra). split.
+  { unfold dp. assert (255 * u' <= / 2)%R by lra. split.
     - apply Rmult_le_pos; [lra | left; apply Rinv_0_lt_compat; lra].
-    - eapply Rle_trans; [apply small_frac; lra | unfold e80; lra]. }
+    - eapply Rle_trans; [apply small_frac; lra | lra]. }
   set (qmax := (1 * (1 + u) / (ln 2 * (1 - eL)) + 1)%R) in *.
   assert (Hq : (0 <= qmax <= 6)%R).
   { unfold qmax. assert (HD : (/ 4 <= ln 2 * (1 - eL))%R) by nra.
     assert (HI : (0 < / (ln 2 * (1 - eL)) <= 4)%R).
     { split; [apply Rinv_0_lt_compat; lra|]. rewrite <- (Rinv_inv 4). apply Rinv_le_contravar; lra. }
     unfold Rdiv. nra. }
-  apply T; clear T.
-  - unfold tL in HtL. lra.
+  rewrite fval_1_0.
+  apply (fun c1 c2 c3 c4 c5 c6 c7 c8 c9 c10 => proj2 (T c1 c2 c3 c4 c5 c6 c7 c8 c9 c10)); clear T.
+  - lra.
   - lra.
   - lra.
   - intros q sum ES. vm_compute in ES. injection ES as <- <-. vm_compute. discriminate.
-  - unfold t in Ht. lra.
-  - unfold u', e80 in *. lra.
+  - lra.
+  - lra.
   - assert (A1 : (qmax * (eL * ln 2) <= 6 * (8192 * e90))%R).
     { assert (eL * ln 2 <= 8192 * e90)%R by nra. assert (0 <= eL * ln 2)%R by nra. nra. }
     assert (A2 : (u * (ln 2 * (1 + eL)) <= 2 * u)%R) by nra.
     assert (A3 : (256 * es <= 256 * 256 * e90)%R) by lra.
-    unfold e80 in *. lra.
-  - apply (Rle_trans _ (/ 1)); [|lra]. apply Rinv_le_contravar; [lra | apply IZR_le; vm_compute; discriminate].
-  - change (2 ^ 65) with (2 * 2 ^ 64). rewrite mult_IZR.
+    lra.
+  - unfold dd. apply (Rle_trans _ (/ 1)); [|lra]. apply Rinv_le_contravar; [lra | apply IZR_le; vm_compute; discriminate].
+  - unfold dd. change (2 ^ 65) with (2 * 2 ^ 64). rewrite mult_IZR.
     assert (0 < IZR (2 ^ 64))%R by (apply IZR_lt; reflexivity).
     replace (2 * / (2 * IZR (2 ^ 64)) * IZR (2 ^ 64))%R with 1%R by (field; lra). lra.
   - nra.
